@@ -4120,7 +4120,33 @@ class ISLaUnparser:
             )
 
     def _unparse_match_expr(self, match_expr: BindExpression | None) -> str:
-        return "" if match_expr is None else f'="{match_expr}"'
+        if match_expr is None:
+            return ""
+
+        def escape_terminal(text: str) -> str:
+            # Inside a match expression, '{' and '[' start a variable declaration and
+            # an optional element, '"' ends the match expression, and a backslash
+            # starts an escape sequence. The parser instantiates escape sequences in
+            # the plain-text parts of match expressions (MExprEmitter).
+            return (
+                text.replace("\\", "\\\\")
+                .replace('"', '\\"')
+                .replace("{", "\\x7b")
+                .replace("[", "\\x5b")
+            )
+
+        def unparse_element(elem: BoundVariable | List[BoundVariable]) -> str:
+            if isinstance(elem, list):
+                return "[" + "".join(map(str, elem)) + "]"
+
+            if isinstance(elem, DummyVariable):
+                return (
+                    elem.n_type if elem.is_nonterminal else escape_terminal(elem.n_type)
+                )
+
+            return f"{{{elem.n_type} {elem}}}"
+
+        return f'="{"".join(map(unparse_element, match_expr.bound_elements))}"'
 
     def _unparse_quantified_formula(self, formula: QuantifiedFormula) -> List[str]:
         qfr = "forall" if isinstance(formula, ForallFormula) else "exists"
